@@ -141,6 +141,7 @@ func checkC20(c *Ctx) {
 	}
 	c20EIRPEncode(c, ev2, tbl)
 	c20DivMul(c)
+	c20AirtimeInt(c)
 	c20GPS(c, spec.Leap, spec.HMS)
 	// the conversions, the airtime functions and the EIRP lookups are functions of their arguments: no result cache, no
 	// table that is filled while they run (tables built once from immutable data under sync.Once are initialisation)
